@@ -1774,6 +1774,11 @@ class sptensor:
         dims, _ = tt_dimscheck(self.ndims, dims=dims)
 
         if self.nnz == 0:
+            # nothing to scale, but an ill-sized factor is still an error
+            if isinstance(factor, (ttb.tensor, ttb.sptensor)) and not np.array_equal(
+                factor.shape, np.array(self.shape)[dims]
+            ):
+                assert False, "Size mismatch in scale"
             return self.copy()
 
         newvals = None
